@@ -149,8 +149,10 @@ package core
 //@ ghost func chainIDOf(n *networks.Network) *felt.Felt
 //@ extern func github.com/NethermindEth/juno/core/crypto.PedersenArray
 //@   ensures result == pedersenArrayOf(elems)
+//@ ghost func pedersenSeq(elems []*felt.Felt) felt.Felt
 //@ extern func github.com/NethermindEth/juno/core/crypto.PedersenElems
 //@   logged
+//@   ensures result == pedersenSeq(elems)
 //@ extern func github.com/NethermindEth/juno/blockchain/networks.(*Network).L2ChainIDFelt
 //@   ensures result == chainIDOf(n)
 
@@ -158,6 +160,7 @@ package core
 // transaction carries a nonce (only nonce-less legacy transactions are taken at their word).
 //@ func l1HandlerTransactionHash
 //@   props C02
+//@   logged
 //@   arith int
 //@   requires l != nil && l.Version != nil && n != nil && (l.Nonce == nil ==> l.TransactionHash != nil)
 //@   assigns calls_PedersenElems, arg_PedersenElems_elems
@@ -188,9 +191,24 @@ package core
 //@   trusted
 //@   ensures result1 == nil ==> result0 != nil && *result0 == blockVer(protocolVersion)
 //@   ensures (result1 == nil) <==> verParses(protocolVersion)
+// Which recomputation a transaction gets: its own kind's, on itself, for this network. DEPLOY
+// transactions (gone since re-genesis) are taken at their word; an unknown kind is refused.
+// (Thin contract: that the transaction's pointer fields are present is the callee's precondition and
+// is assumed here - a decoded transaction's business.)
 //@ func TransactionHash
-//@   trusted
+//@   props C02
 //@   logged
+//@   arith int
+//@   nosafe
+//@   assumecalleepre
+//@   requires n != nil
+//@   assigns calls_declareTransactionHash, arg_declareTransactionHash_d, arg_declareTransactionHash_n, calls_invokeTransactionHash, arg_invokeTransactionHash_i, arg_invokeTransactionHash_n, calls_l1HandlerTransactionHash, arg_l1HandlerTransactionHash_l, arg_l1HandlerTransactionHash_n, calls_deployAccountTransactionHash, arg_deployAccountTransactionHash_d, arg_deployAccountTransactionHash_n, calls_PedersenElems, arg_PedersenElems_elems, calls_PoseidonElems, arg_PoseidonElems_elems, calls_DigestUpdate, arg_DigestUpdate_elems, calls_DigestUpdateArray, arg_DigestUpdateArray_elems, calls_PDigestUpdate, arg_PDigestUpdate_elems, calls_PDigestUpdateArray, arg_PDigestUpdateArray_elems
+//@   callsite declareTransactionHash@*: the_transaction_itself: istype(transaction, *DeclareTransaction) && $0 == cast(transaction, *DeclareTransaction) && $1 == n
+//@   callsite invokeTransactionHash@*: the_transaction_itself: istype(transaction, *InvokeTransaction) && $0 == cast(transaction, *InvokeTransaction) && $1 == n
+//@   callsite l1HandlerTransactionHash@*: the_transaction_itself: istype(transaction, *L1HandlerTransaction) && $0 == cast(transaction, *L1HandlerTransaction) && $1 == n
+//@   callsite deployAccountTransactionHash@*: the_transaction_itself: istype(transaction, *DeployAccountTransaction) && $0 == cast(transaction, *DeployAccountTransaction) && $1 == n
+//@   ensures own_kind_recomputed: result1 == nil ==> (istype(transaction, *DeclareTransaction) ==> calls_declareTransactionHash == old(calls_declareTransactionHash) + 1) && (istype(transaction, *InvokeTransaction) ==> calls_invokeTransactionHash == old(calls_invokeTransactionHash) + 1) && (istype(transaction, *L1HandlerTransaction) ==> calls_l1HandlerTransactionHash == old(calls_l1HandlerTransactionHash) + 1) && (istype(transaction, *DeployAccountTransaction) ==> calls_deployAccountTransactionHash == old(calls_deployAccountTransactionHash) + 1)
+//@   ensures unknown_kind_refused: !istype(transaction, *DeclareTransaction) && !istype(transaction, *InvokeTransaction) && !istype(transaction, *L1HandlerTransaction) && !istype(transaction, *DeployAccountTransaction) && !istype(transaction, *DeployTransaction) ==> result1 != nil
 //@ func (Transaction).Hash
 //@   ensures result != nil
 //@ ghost func feltIsZero(f felt.Felt) bool
@@ -204,8 +222,9 @@ package core
 //@ func VerifyTransactions
 //@   props C02
 //@   arith int
+//@   requires n != nil
 //@   requires forall j int :: 0 <= j && j < len(txs) ==> txs[j] != nil
-//@   assigns calls_TransactionHash, arg_TransactionHash_transaction, arg_TransactionHash_n
+//@   assigns calls_TransactionHash, arg_TransactionHash_transaction, arg_TransactionHash_n, calls_declareTransactionHash, arg_declareTransactionHash_d, arg_declareTransactionHash_n, calls_invokeTransactionHash, arg_invokeTransactionHash_i, arg_invokeTransactionHash_n, calls_l1HandlerTransactionHash, arg_l1HandlerTransactionHash_l, arg_l1HandlerTransactionHash_n, calls_deployAccountTransactionHash, arg_deployAccountTransactionHash_d, arg_deployAccountTransactionHash_n, calls_PedersenElems, arg_PedersenElems_elems, calls_PoseidonElems, arg_PoseidonElems_elems, calls_DigestUpdate, arg_DigestUpdate_elems, calls_DigestUpdateArray, arg_DigestUpdateArray_elems, calls_PDigestUpdate, arg_PDigestUpdate_elems, calls_PDigestUpdateArray, arg_PDigestUpdateArray_elems
 //@   loop 1: invariant bounds: -1 <= rangeindex && rangeindex < len(txs)
 //@   loop 1: invariant counted: calls_TransactionHash == old(calls_TransactionHash) + rangeindex + 1
 //@   ensures only_old_blocks_skip: result == nil && len(txs) > 0 && calls_TransactionHash == old(calls_TransactionHash) ==> verLess(blockVer(protocolVersion), verOf("0.11.0"))
@@ -337,6 +356,7 @@ package core
 //@   trusted
 //@   ensures result == tipResources(tip, resourceBounds)
 //@ extern func github.com/NethermindEth/juno/core/felt.FromUint64
+//@   ensures result == feltOfUint(num)
 //@ func (*TransactionVersion).AsFelt
 //@   trusted
 //@   ensures result == v
@@ -345,13 +365,64 @@ package core
 //@   ensures result != nil
 //@ func declareTransactionHash
 //@   props C02
+//@   logged
 //@   arith int
 //@   nosafe
 //@   requires d != nil && d.Version != nil && n != nil
-//@   modifies *
 //@   assigns calls_PoseidonElems, arg_PoseidonElems_elems, calls_PedersenElems, arg_PedersenElems_elems
+//@   callsite PedersenElems@*: v0_v1_v2_preimages: (len(elems) == 0 && versionIs(*d.Version, 0)) || (len(elems) == 1 && elems[0] == d.ClassHash && !versionIs(*d.Version, 0) && (versionIs(*d.Version, 1) || versionIs(*d.Version, 2))) || (versionIs(*d.Version, 0) && len(elems) == 8 && elems[0] == declareFelt && elems[1] == d.Version && elems[2] == d.SenderAddress && elems[3] == &felt.Zero && *elems[4] == pedersenSeq(arg_PedersenElems_elems) && len(arg_PedersenElems_elems) == 0 && elems[5] == d.MaxFee && elems[6] == chainIDOf(n) && elems[7] == d.ClassHash) || (!versionIs(*d.Version, 0) && versionIs(*d.Version, 1) && len(elems) == 8 && elems[0] == declareFelt && elems[1] == d.Version && elems[2] == d.SenderAddress && *elems[3] == zero(felt.Felt) && *elems[4] == pedersenSeq(arg_PedersenElems_elems) && len(arg_PedersenElems_elems) == 1 && arg_PedersenElems_elems[0] == d.ClassHash && elems[5] == d.MaxFee && elems[6] == chainIDOf(n) && elems[7] == d.Nonce) || (!versionIs(*d.Version, 0) && !versionIs(*d.Version, 1) && versionIs(*d.Version, 2) && len(elems) == 9 && elems[0] == declareFelt && elems[1] == d.Version && elems[2] == d.SenderAddress && elems[3] == &felt.Zero && *elems[4] == pedersenSeq(arg_PedersenElems_elems) && len(arg_PedersenElems_elems) == 1 && arg_PedersenElems_elems[0] == d.ClassHash && elems[5] == d.MaxFee && elems[6] == chainIDOf(n) && elems[7] == d.Nonce && elems[8] == d.CompiledClassHash)
+//@   callsite PoseidonElems@*: v3_da_word: *elems[7] == feltOfUint(uint64(d.FeeDAMode) + uint64(d.NonceDAMode) * 4294967296)
 //@   callsite PoseidonElems@*: v3_preimage: len(elems) == 11 && elems[0] == declareFelt && elems[1] == d.Version && elems[2] == d.SenderAddress && *elems[3] == tipResources(d.Tip, d.ResourceBounds) && *elems[4] == poseidonArrayOf(d.PaymasterData) && elems[5] == chainIDOf(n) && elems[6] == d.Nonce && *elems[8] == poseidonArrayOf(d.AccountDeploymentData) && elems[9] == d.ClassHash && elems[10] == d.CompiledClassHash
 //@   ensures v3_recomputed: result1 == nil && versionIs(*d.Version, 3) && !versionIs(*d.Version, 0) && !versionIs(*d.Version, 1) && !versionIs(*d.Version, 2) ==> calls_PoseidonElems == old(calls_PoseidonElems) + 1
+//@   ensures v1_v2_recomputed: result1 == nil && !versionIs(*d.Version, 0) && (versionIs(*d.Version, 1) || versionIs(*d.Version, 2)) ==> calls_PedersenElems == old(calls_PedersenElems) + 2 && calls_PoseidonElems == old(calls_PoseidonElems)
+//@   ensures other_versions_refused: !versionIs(*d.Version, 0) && !versionIs(*d.Version, 1) && !versionIs(*d.Version, 2) && !versionIs(*d.Version, 3) ==> result1 != nil
+
+// INVOKE: v0 (seven Pedersen elements, contract address and entry point), v1 (eight, sender, a zero
+// in the entry-point slot, the nonce), v3 (ten Poseidon elements - tip and resource bounds, paymaster
+// data, chain id, nonce, the data-availability word, account-deployment data, call data - plus the
+// hash of the proof facts when there are any). Any other version is refused.
+//@ extern func github.com/NethermindEth/juno/core/crypto.(*PoseidonDigest).Update
+//@   logged as DigestUpdate
+//@ extern func github.com/NethermindEth/juno/core/crypto.(*PoseidonDigest).UpdateArray
+//@   logged as DigestUpdateArray
+//@ extern func github.com/NethermindEth/juno/core/crypto.(*PoseidonDigest).Finish
+//@ func invokeTransactionHash
+//@   props C02
+//@   logged
+//@   arith int
+//@   nosafe
+//@   requires i != nil && i.Version != nil && n != nil
+//@   assigns calls_PedersenElems, arg_PedersenElems_elems, calls_DigestUpdate, arg_DigestUpdate_elems, calls_DigestUpdateArray, arg_DigestUpdateArray_elems
+//@   callsite PedersenElems@*: v0_or_v1_preimage: (versionIs(*i.Version, 0) && len(elems) == 7 && elems[0] == invokeFelt && elems[1] == i.Version && elems[2] == i.ContractAddress && elems[3] == i.EntryPointSelector && *elems[4] == pedersenArrayOf(i.CallData) && elems[5] == i.MaxFee && elems[6] == chainIDOf(n)) || (!versionIs(*i.Version, 0) && versionIs(*i.Version, 1) && len(elems) == 8 && elems[0] == invokeFelt && elems[1] == i.Version && elems[2] == i.SenderAddress && *elems[3] == zero(felt.Felt) && *elems[4] == pedersenArrayOf(i.CallData) && elems[5] == i.MaxFee && elems[6] == chainIDOf(n) && elems[7] == i.Nonce)
+//@   callsite Update@1: v3_preimage: !versionIs(*i.Version, 0) && !versionIs(*i.Version, 1) && versionIs(*i.Version, 3) && $0 == &digest && len(elems) == 10 && elems[0] == invokeFelt && elems[1] == i.Version && elems[2] == i.SenderAddress && *elems[3] == tipResources(i.Tip, i.ResourceBounds) && *elems[4] == poseidonArrayOf(i.PaymasterData) && elems[5] == chainIDOf(n) && elems[6] == i.Nonce && *elems[7] == feltOfUint(uint64(i.FeeDAMode) + uint64(i.NonceDAMode) * 4294967296) && *elems[8] == poseidonArrayOf(i.AccountDeploymentData) && *elems[9] == poseidonArrayOf(i.CallData)
+//@   callsite Update@2: proof_facts_appended: $0 == &digest && len(elems) == 1 && len(i.ProofFacts) > 0 && elems[0] == &proofFactsHash && calls_DigestUpdate == old(calls_DigestUpdate) + 1 && calls_DigestUpdateArray == old(calls_DigestUpdateArray) + 1
+//@   callsite UpdateArray@*: proof_facts_hashed_apart: $1 == i.ProofFacts && $0 == &proofFactsDigest
+//@   ensures v3_recomputed: result1 == nil && !versionIs(*i.Version, 0) && !versionIs(*i.Version, 1) ==> versionIs(*i.Version, 3) && calls_PedersenElems == old(calls_PedersenElems) && (len(i.ProofFacts) == 0 ==> calls_DigestUpdate == old(calls_DigestUpdate) + 1) && (len(i.ProofFacts) > 0 ==> calls_DigestUpdate == old(calls_DigestUpdate) + 2 && calls_DigestUpdateArray == old(calls_DigestUpdateArray) + 1)
+//@   ensures old_versions_recomputed: result1 == nil && (versionIs(*i.Version, 0) || versionIs(*i.Version, 1)) ==> calls_PedersenElems == old(calls_PedersenElems) + 1 && calls_DigestUpdate == old(calls_DigestUpdate)
+
+// DEPLOY_ACCOUNT: v1 (eight Pedersen elements; the call-data slot is the digest of class hash, salt
+// and constructor call data, in that order) and v3 (eleven Poseidon elements). No version 0 or 2.
+//@ extern func github.com/NethermindEth/juno/core/crypto.(*PedersenDigest).Update
+//@   logged as PDigestUpdate
+//@ extern func github.com/NethermindEth/juno/core/crypto.(*PedersenDigest).UpdateArray
+//@   logged as PDigestUpdateArray
+//@ extern func github.com/NethermindEth/juno/core/crypto.(*PedersenDigest).Finish
+//@ func deployAccountTransactionHash
+//@   props C02
+//@   logged
+//@   arith int
+//@   nosafe
+//@   requires d != nil && d.Version != nil && n != nil
+//@   assigns calls_PedersenElems, arg_PedersenElems_elems, calls_PoseidonElems, arg_PoseidonElems_elems, calls_PDigestUpdate, arg_PDigestUpdate_elems, calls_PDigestUpdateArray, arg_PDigestUpdateArray_elems
+//@   callsite PedersenElems@*: v1_preimage: versionIs(*d.Version, 1) && len(elems) == 8 && elems[0] == deployAccountFelt && elems[1] == d.Version && elems[2] == d.ContractAddress && elems[3] == &felt.Zero && elems[4] == &callDataHash && elems[5] == d.MaxFee && elems[6] == chainIDOf(n) && elems[7] == d.Nonce && calls_PDigestUpdate == old(calls_PDigestUpdate) + 2 && calls_PDigestUpdateArray == old(calls_PDigestUpdateArray) + 1
+//@   callsite Update@1: class_hash_first: $0 == &digest && len(elems) == 1 && elems[0] == d.ClassHash
+//@   callsite Update@2: then_the_salt: $0 == &digest && len(elems) == 1 && elems[0] == d.ContractAddressSalt && calls_PDigestUpdate == old(calls_PDigestUpdate) + 1 && calls_PDigestUpdateArray == old(calls_PDigestUpdateArray)
+//@   callsite UpdateArray@*: then_the_constructor_call_data: $0 == &digest && $1 == d.ConstructorCallData && calls_PDigestUpdate == old(calls_PDigestUpdate) + 2
+//@   callsite PoseidonElems@*: v3_preimage: !versionIs(*d.Version, 1) && versionIs(*d.Version, 3) && len(elems) == 11 && elems[0] == deployAccountFelt && elems[1] == d.Version && elems[2] == d.ContractAddress && *elems[3] == tipResources(d.Tip, d.ResourceBounds) && *elems[4] == poseidonArrayOf(d.PaymasterData) && elems[5] == chainIDOf(n) && elems[6] == d.Nonce && *elems[7] == feltOfUint(uint64(d.FeeDAMode) + uint64(d.NonceDAMode) * 4294967296) && *elems[8] == poseidonArrayOf(d.ConstructorCallData) && elems[9] == d.ClassHash && elems[10] == d.ContractAddressSalt
+//@   ensures recomputed: result1 == nil ==> (versionIs(*d.Version, 1) && calls_PedersenElems == old(calls_PedersenElems) + 1 && calls_PoseidonElems == old(calls_PoseidonElems)) || (!versionIs(*d.Version, 1) && versionIs(*d.Version, 3) && calls_PoseidonElems == old(calls_PoseidonElems) + 1 && calls_PedersenElems == old(calls_PedersenElems))
+
+// Which recomputation a transaction gets: its own kind's, on itself, for this network. DEPLOY
+// transactions (gone since re-genesis) are taken at their word; an unknown kind is refused.
 
 // Block hash from 0.13.4 on: the protocol version committed to is the header's own string, byte for
 // byte (not a normalised rendering of it), and state root, sequencer and parent hash are in their
